@@ -75,11 +75,31 @@ func mkODTSimple(paras []string) []zipMember {
 	}
 }
 
-func pptxSlideXML(texts []string) string {
+func pptxSlideXML(texts []string) string { return pptxSlideXMLTables(texts, nil) }
+
+// pptxSlideXMLTables: text boxes followed by tables (graphic frames), each a grid of plain cells
+func pptxSlideXMLTables(texts []string, tables [][][]string) string {
 	var d strings.Builder
 	d.WriteString(`<?xml version="1.0" encoding="UTF-8" standalone="yes"?><p:sld xmlns:a="http://schemas.openxmlformats.org/drawingml/2006/main" xmlns:p="http://schemas.openxmlformats.org/presentationml/2006/main" xmlns:r="http://schemas.openxmlformats.org/officeDocument/2006/relationships"><p:cSld><p:spTree><p:nvGrpSpPr><p:cNvPr id="1" name=""/><p:cNvGrpSpPr/><p:nvPr/></p:nvGrpSpPr><p:grpSpPr/>`)
 	for i, t := range texts {
 		fmt.Fprintf(&d, `<p:sp><p:nvSpPr><p:cNvPr id="%d" name="TextBox %d"/><p:cNvSpPr txBox="1"/><p:nvPr/></p:nvSpPr><p:spPr><a:xfrm><a:off x="100" y="%d"/><a:ext cx="1000" cy="300"/></a:xfrm></p:spPr><p:txBody><a:bodyPr/><a:p><a:r><a:t>%s</a:t></a:r></a:p></p:txBody></p:sp>`, i+2, i+2, 100+i*400, xmlEsc(t))
+	}
+	for ti, tb := range tables {
+		fmt.Fprintf(&d, `<p:graphicFrame><p:nvGraphicFramePr><p:cNvPr id="%d" name="Table %d"/><p:cNvGraphicFramePr/><p:nvPr/></p:nvGraphicFramePr><p:xfrm><a:off x="100" y="%d"/><a:ext cx="4000" cy="900"/></p:xfrm><a:graphic><a:graphicData uri="http://schemas.openxmlformats.org/drawingml/2006/table"><a:tbl><a:tblGrid>`, 100+ti, ti+1, 3000+ti*1500)
+		if len(tb) > 0 {
+			for range tb[0] {
+				d.WriteString(`<a:gridCol w="1000"/>`)
+			}
+		}
+		d.WriteString(`</a:tblGrid>`)
+		for _, row := range tb {
+			d.WriteString(`<a:tr h="300">`)
+			for _, c := range row {
+				fmt.Fprintf(&d, `<a:tc><a:txBody><a:bodyPr/><a:p><a:r><a:t>%s</a:t></a:r></a:p></a:txBody><a:tcPr/></a:tc>`, xmlEsc(c))
+			}
+			d.WriteString(`</a:tr>`)
+		}
+		d.WriteString(`</a:tbl></a:graphicData></a:graphic></p:graphicFrame>`)
 	}
 	d.WriteString(`</p:spTree></p:cSld></p:sld>`)
 	return d.String()
